@@ -29,6 +29,7 @@ import DDProps.C07
 import DDProps.C07Accept
 import DDProps.C07Levels
 import DDProps.C08
+import DDProps.C08Accept
 import DDProps.C08Sched
 import DDProps.C08Values
 import DDProps.C08Values2
